@@ -750,3 +750,36 @@ func VerifC08_PlainGraphDegenerate() {
 		zzverif.Reach("rejected")
 	}
 }
+
+// VerifC06_Names: relation and type names that are close to each other (differing in case only,
+// prefixes of each other): one verdict and one digest per model over every explored iteration order
+// of the builder's maps.
+func VerifC06_Names() {
+	menu := []string{"a", "A", "b", "ab", "B", "a_b", "aB"}
+	i := zzverif.Choose("first", len(menu))
+	j := zzverif.Choose("second", len(menu))
+	k := zzverif.Choose("third", len(menu))
+	if i >= j || j >= k {
+		zzverif.Skip("names in menu order only (the model is a set of relations)")
+		return
+	}
+	n1, n2, n3 := menu[i], menu[j], menu[k]
+	types := [][2]string{{"user", "User"}, {"user", "employee"}, {"user", "user_"}}[zzverif.Choose("types", 3)]
+	td := &openfgav1.TypeDefinition{Type: "doc", Relations: map[string]*openfgav1.Userset{
+		n1: fThis(), n2: fOp(0, fThis(), fTTU(n2, "p")), n3: fOp(zzverif.Choose("op", 3), fThis(), fComputed(n2)), "p": fThis()},
+		Metadata: &openfgav1.Metadata{Relations: map[string]*openfgav1.RelationMetadata{
+			n1: {DirectlyRelatedUserTypes: []*openfgav1.RelationReference{fRef(types[0]), fWild(types[1])}},
+			n2: {DirectlyRelatedUserTypes: []*openfgav1.RelationReference{fRef(types[1]), fUserset("doc", n1)}},
+			n3: {DirectlyRelatedUserTypes: []*openfgav1.RelationReference{fRef(types[0]), fRef(types[1]), fUserset("doc", n1)}},
+			"p": {DirectlyRelatedUserTypes: []*openfgav1.RelationReference{fRef("doc")}}}}}
+	m := &openfgav1.AuthorizationModel{SchemaVersion: "1.1", TypeDefinitions: []*openfgav1.TypeDefinition{{Type: types[0]}, {Type: types[1]}, td}}
+	key := n1 + "," + n2 + "," + n3 + " " + types[0] + "," + types[1]
+	wg, err := NewWeightedAuthorizationModelGraphBuilder().Build(m)
+	if err != nil {
+		zzverif.Observe(key, "rejected")
+		zzverif.Reach("rejected")
+		return
+	}
+	zzverif.Observe(key, "accepted "+graphDigest(wg))
+	zzverif.Reach("accepted")
+}
